@@ -47,6 +47,7 @@ Init ==
     /\ props = <<>> /\ stored = <<>>
     /\ voters = m /\ gtotal = SumW(m) /\ startVoters = m /\ dirty = FALSE
     /\ bal = [a \in Addr \cup {"ms"} |-> IF a = "ms" THEN 0 ELSE 2]
+    /\ qx = [thrq |-> [kind |-> "none", weight |-> 0, p |-> 0, q |-> 0, total |-> 0], lvoters |-> {}, voteq |-> {}]
     /\ now = [h |-> 0, t |-> 0] /\ out = <<>>
     /\ snap = <<>> /\ execd = <<>> /\ closedH = <<>> /\ held = <<>> /\ rejEarly = <<>> /\ sameBlk = <<>>
     /\ upd = 0
@@ -157,7 +158,7 @@ DoGroupUpdate(a, w) ==
 Call(e, action) ==
   \/ /\ action
      /\ ev' = [e EXCEPT !.ok = TRUE]
-     /\ UNCHANGED <<cfg, cfgv>>
+     /\ UNCHANGED <<cfg, cfgv, qx>>
      /\ sched' = IF GenMode THEN Append(sched, e) ELSE sched
   \/ /\ GenMode /\ GenFail /\ ~ENABLED action
      /\ ev' = [e EXCEPT !.ok = FALSE]
@@ -184,7 +185,7 @@ Advance ==
   /\ ev' = Ev("advance", "env", [dh |-> 1, dt |-> 10])
   /\ LET ps == Refresh(props, stored, now') IN props' = ps /\ rejEarly' = RejEarlyNext(ps, now', FALSE)
   /\ startVoters' = voters /\ dirty' = FALSE /\ out' = <<>>
-  /\ UNCHANGED <<cfg, voters, gtotal, bal, snap, execd, closedH, held, sameBlk, stored, upd, cfgv>>
+  /\ UNCHANGED <<cfg, voters, gtotal, bal, qx, snap, execd, closedH, held, sameBlk, stored, upd, cfgv>>
   /\ sched' = IF GenMode THEN Append(sched, ev') ELSE sched
 
 Next == APropose \/ AVote \/ AExecute \/ AClose \/ AGroupUpdate \/ Advance
